@@ -75,7 +75,7 @@ SPECS += [
          stmts=(2, 3), nonneg=["divirq"],
          note="cut: inside the polling loop the test of CIU_DivIRq bit 0 (external field switched off); `divirq` is a "
               "register value (>= 0)"),
-    Spec(GROUP, "pn53x_tt3_rx_irq", F, "Device._tt3_send_rsp_recv_cmd", [("commirq", INT)], expr="commirq & 32",
+    Spec(GROUP, "pn53x_tt3_rx_irq", F, "Device._tt3_send_rsp_recv_cmd", [("commirq", INT)], expr="commirq & 32", whole=True,
          nonneg=["commirq"], note="cut: the condition `commirq & 0b00100000` (RxIRq) of the polling loop"),
     Spec(GROUP, "pn53x_tt3_fifo_check", F, "Device._tt3_send_rsp_recv_cmd", [("fifo_data", BYTES)],
          path=[(5, "body"), (3, "body")], stmts=(4, 6),
@@ -209,5 +209,8 @@ MUTATIONS = [
     ("pn53x_tt3_fifo_check", "length octet not counted", "fifo_data[0] != len(fifo_data)", "fifo_data[0] != len(fifo_data) - 1"),
     ("pn53x_tt3_fifo_check", "wrong exception class", 'raise nfc.clf.TransmissionError("frame length byte error")', 'raise nfc.clf.ProtocolError("frame length byte error")'),
     ("pn53x_tt3_timeout", "timeout also for a zero timeout", "if timeout > 0:", "if timeout >= 0:"),
+    ("pn53x_tt3_rx_irq", "RxIRq test gains an operand", "if commirq & 0b00100000:", "if commirq & 0b00100000 or commirq & 0b00000001:"),
+    ("pn53x_tt3_rx_irq", "RxIRq test gains a conjunct", "if commirq & 0b00100000:", "if commirq & 0b00100000 and not divirq & 0b00000010:"),
+    ("rcs380_ini_comm_error", "timeout comparison gains an operand", 'if error == "RECEIVE_TIMEOUT_ERROR":', 'if error == "RECEIVE_TIMEOUT_ERROR" or error == "PROTOCOL_ERROR":'),
     ("pn53x_tgt_chip_error", "NEUTRAL tuple order", "(0x0A, 0x29, 0x31)", "(0x31, 0x29, 0x0A)"),
 ]
